@@ -35,7 +35,7 @@ func (d *distWitness) GetLatestCheckpoint(ctx context.Context, logID string) ([]
 }
 
 var witAnsKinds = []string{"valid", "missing", "wrongLogKey", "noWitSig", "badWitSig", "corrupted", "otherLog", "twoWitSigs"}
-var distAnsKinds = []string{"200", "404", "500", "conn", "redir307", "redir302", "201", "stall"}
+var distAnsKinds = []string{"200", "404", "500", "conn", "redir307", "redir302", "201", "503then200", "502then200", "stall"}
 
 type distStub struct {
 	mu     sync.Mutex
@@ -55,6 +55,12 @@ func (d *distStub) ServeHTTP(w http.ResponseWriter, r *http.Request) {
 		w.WriteHeader(200)
 		return
 	}
+	// every request that arrives at a path is recorded, in order (a client that sends a second one must send the same bytes)
+	nth := 1
+	if prev, ok := d.puts[r.RequestURI]; ok {
+		rec = prev + "+" + rec
+		nth = strings.Count(prev, "+") + 2
+	}
 	d.puts[r.RequestURI] = rec
 	if d.plan[r.RequestURI] == "stall" {
 		// answers only after the client's own timeout (http.Client.Timeout) has fired; the lock is not held meanwhile
@@ -69,6 +75,13 @@ func (d *distStub) ServeHTTP(w http.ResponseWriter, r *http.Request) {
 		w.WriteHeader(200)
 	case "201":
 		w.WriteHeader(201)
+	case "503then200", "502then200": // a gateway in front of the distributor hiccups once
+		if nth == 1 {
+			w.WriteHeader(map[string]int{"503then200": 503, "502then200": 502}[d.plan[r.RequestURI]])
+			io.WriteString(w, "upstream unavailable\n")
+		} else {
+			w.WriteHeader(200)
+		}
 	case "404": // refusals carry a body, as real services' do
 		w.WriteHeader(404)
 		io.WriteString(w, "no such log is known to this distributor\n")
